@@ -180,14 +180,22 @@ def tpdata_snapshot_rule(rep, fl):
     sid = core.strip_casts(sx["x"])["id"]
     later = [p_ for p_, x in reads if fl.pos_dominates(spos, p_) and p_ != spos and not any(y is x for y, _ in _walk(sx["y"]))]
     zero = False
+    from rules import r_mpt
     for bid in fl.reachable_blocks():
         c = fl.blocks[bid].cond
-        if c is None or not fl.dominates(spos[0], bid):
+        if c is None or not fl.dominates(spos[0], bid) or not all(fl.dominates(bid, cb_[0]) for cb_ in cbs):
             continue
-        for y, _ in _walk(c):
-            if y.get("k") == "bin" and y["op"] in ("==", "!=") and any(core.is_ref(core.strip_casts(y[k_])) and core.strip_casts(y[k_]).get("id") == sid for k_ in ("x", "y")) \
-               and any(const_val(y[k_]) == 0 for k_ in ("x", "y")):
-                zero = True
+        atoms = [y for y, _ in _walk(c) if core.is_ref(y) and y.get("id") == sid]
+        if not atoms:
+            continue
+        # evaluated, not matched: with the snapshot = 0 the branch taken must not lead to the callback
+        try:
+            v = r_mpt.eval_expr(c, {id(a): 0 for a in atoms})
+        except r_mpt.Unknown:
+            continue
+        s_ = fl.blocks[bid].succ[0] if v else fl.blocks[bid].succ[1]
+        if s_ is None or not any(cb_[0] in fl.reach_from([s_], avoid=[bid]) for cb_ in cbs):
+            zero = True
     if later:
         rep.violated("R-SNAP", fl, "tpdata-read-once", desc, "the field is read again after the snapshot (line %s)" % fl.blocks[later[0][0]].elems[later[0][1]].get("ln"))
     elif not zero:
